@@ -374,3 +374,36 @@ func Explore(t *testing.T, cfg Config) Stats {
 	}
 	return st
 }
+
+// RunFree runs the scenario body n times WITHOUT the scheduler (shims pass
+// through to the native primitives, threads are ordinary goroutines). It decides
+// nothing about the property: built with -race it guards the assumption that
+// scheduling points at synchronisation operations suffice, i.e. that the
+// explored code has no unsynchronised conflicting accesses.
+func RunFree(t *testing.T, cfg Config, n int) (runs int) {
+	freeMode.Store(true)
+	defer freeMode.Store(false)
+	for i := 0; i < n; i++ {
+		synctest.Test(t, func(t *testing.T) {
+			s := &Sched{byGoid: map[uint64]*thread{}}
+			x := &X{s: s, t: t}
+			cfg.Body(x)
+			for tries := 0; tries < 16; tries++ {
+				synctest.Wait()
+				if freeLive.Load() == 0 {
+					break
+				}
+				if x.onStuck == nil || !x.onStuck() {
+					// blocked on virtual time or stuck for good: let time pass once
+					time.Sleep(time.Hour)
+				}
+			}
+			if x.cleanup != nil {
+				x.cleanup()
+			}
+			synctest.Wait()
+		})
+		runs++
+	}
+	return runs
+}
